@@ -22,10 +22,12 @@ use std::time::Duration;
 
 pub const CLI: &str = "/verif/target/cli/debug/gamedig_cli";
 
-const CLASSES: [(&str, &str); 6] = [
+const CLASSES: [(&str, &str); 7] = [
     ("plain", "Plain"),
     ("markup", "<b>&amp;\"'</b> ]]> <!--"),
     ("control", "ctl\u{1}\u{7}\u{1f}\u{7f}x"),
+    // the edges of the ranges XML 1.1 only allows as references (01-08, 0B, 0C, 0E-1F, 7F-84, 86-9F) and their neighbours
+    ("control-edges", "e\u{8}\t\u{b}\u{c}\u{e}\u{84}\u{85}\u{86}\u{9f}\u{a0}x"),
     ("non-ascii", "Zürich 東京 𝄞"),
     ("space", " two  words "),
     ("empty", ""),
@@ -273,18 +275,25 @@ fn server_for_cli(id: &'static str, slot: Vec<(&'static str, String)>) -> Server
 // ---------------------------------------------------------------------------
 // a small strict XML 1.1 well-formedness checker (for the subset the CLI emits)
 
-pub fn xml_leaves(doc: &str) -> Result<Vec<String>, String> {
+pub fn xml_leaves(doc: &str) -> Result<Vec<(String, String)>, String> {
     let b: Vec<char> = doc.trim_end_matches('\n').chars().collect();
     let mut i = 0usize;
     let starts = |i: usize, s: &str| -> bool { s.chars().enumerate().all(|(k, c)| b.get(i + k) == Some(&c)) };
+    // without a declaration saying version 1.1 the document is XML 1.0, where references to C0 controls are not well-formed
+    let mut version11 = false;
     if starts(0, "<?xml") {
         let end = (0 .. b.len()).find(|k| starts(*k, "?>")).ok_or("unterminated XML declaration")?;
+        let decl: String = b[.. end].iter().collect();
+        version11 = decl.contains("version=\"1.1\"") || decl.contains("version='1.1'");
+        if !version11 && !(decl.contains("version=\"1.0\"") || decl.contains("version='1.0'")) {
+            return Err(format!("XML declaration without a version: {decl:?}"));
+        }
         i = end + 2;
     }
     let name_start = |c: char| c.is_ascii_alphabetic() || c == '_' || c == ':' || (c as u32) >= 0xC0;
     let name_char = |c: char| name_start(c) || c.is_ascii_digit() || c == '-' || c == '.' || c == '\u{b7}';
     let mut stack: Vec<String> = Vec::new();
-    let mut leaves: Vec<String> = Vec::new();
+    let mut leaves: Vec<(String, String)> = Vec::new();
     let mut text = String::new();
     let mut had_child = vec![false];
     let mut roots = 0;
@@ -304,7 +313,12 @@ pub fn xml_leaves(doc: &str) -> Result<Vec<String>, String> {
                 }
                 let child = had_child.pop().unwrap_or(false);
                 if !child {
-                    leaves.push(std::mem::take(&mut text));
+                    let mut path = stack.join("/");
+                    if !path.is_empty() {
+                        path.push('/');
+                    }
+                    path.push_str(&name);
+                    leaves.push((path, std::mem::take(&mut text)));
                 } else if !text.trim().is_empty() {
                     return Err(format!("mixed content in <{name}>"));
                 }
@@ -345,7 +359,12 @@ pub fn xml_leaves(doc: &str) -> Result<Vec<String>, String> {
                 }
                 text.clear();
                 if empty {
-                    leaves.push(String::new());
+                    let mut path = stack.join("/");
+                    if !path.is_empty() {
+                        path.push('/');
+                    }
+                    path.push_str(&name);
+                    leaves.push((path, String::new()));
                 } else {
                     stack.push(name);
                     had_child.push(false);
@@ -373,12 +392,20 @@ pub fn xml_leaves(doc: &str) -> Result<Vec<String>, String> {
                 e if e.starts_with('#') => char::from_u32(e[1 ..].parse().map_err(|_| "bad char ref")?).ok_or("bad char ref")?,
                 e => return Err(format!("unknown entity &{e};")),
             };
+            let cu = ch as u32;
+            if cu == 0 {
+                return Err("reference to U+0000".into());
+            }
+            if !version11 && cu < 0x20 && !matches!(cu, 0x9 | 0xA | 0xD) {
+                return Err(format!("reference to U+{cu:04X} in a document that is not declared XML 1.1"));
+            }
             text.push(ch);
             i += 1;
         } else {
             let u = c as u32;
             // XML 1.1: restricted characters must not appear literally
-            if u == 0 || (0x1 ..= 0x8).contains(&u) || (0xB ..= 0xC).contains(&u) || (0xE ..= 0x1F).contains(&u) || (0x7F ..= 0x84).contains(&u) || (0x86 ..= 0x9F).contains(&u) {
+            let c0 = u == 0 || (0x1 ..= 0x8).contains(&u) || (0xB ..= 0xC).contains(&u) || (0xE ..= 0x1F).contains(&u);
+            if c0 || (version11 && ((0x7F ..= 0x84).contains(&u) || (0x86 ..= 0x9F).contains(&u))) {
                 return Err(format!("restricted character U+{u:04X} appears literally"));
             }
             if stack.is_empty() && !c.is_whitespace() {
@@ -397,22 +424,33 @@ pub fn xml_leaves(doc: &str) -> Result<Vec<String>, String> {
     Ok(leaves)
 }
 
-fn json_leaves(v: &Value, out: &mut Vec<String>) {
+/// (element path, text) of every leaf the XML form of `v` must have: object members become child elements named after the
+/// key, array elements repeat the element of their key (`item` at the top level), null is an empty element. A key that is
+/// not already an XML name made of ASCII letters, digits, `_`, `-`, `.` (server-supplied rule names can be anything) has to
+/// be turned into *some* valid name: written `*` here, matching any one name.
+fn json_leaves(v: &Value, path: &str, out: &mut Vec<(String, String)>) {
     match v {
         Value::Object(m) => {
-            for x in m.values() {
-                json_leaves(x, out);
+            for (k, x) in m {
+                let simple = k.chars().next().is_some_and(|c| c.is_ascii_alphabetic() || c == '_') && k.chars().all(|c| c.is_ascii_alphanumeric() || matches!(c, '_' | '-' | '.'));
+                json_leaves(x, &format!("{path}/{}", if simple { k.as_str() } else { "*" }), out);
             }
         }
         Value::Array(a) => {
+            let p = if path == "data" { "data/item".to_string() } else { path.to_string() };
             for x in a {
-                json_leaves(x, out);
+                json_leaves(x, &p, out);
             }
         }
-        Value::Null => out.push(String::new()),
-        Value::String(s) => out.push(s.clone()),
-        other => out.push(other.to_string()),
+        Value::Null => out.push((path.to_string(), String::new())),
+        Value::String(s) => out.push((path.to_string(), s.clone())),
+        other => out.push((path.to_string(), other.to_string())),
     }
+}
+
+fn path_matches(pattern: &str, path: &str) -> bool {
+    let (a, b): (Vec<&str>, Vec<&str>) = (pattern.split('/').collect(), path.split('/').collect());
+    a.len() == b.len() && a.iter().zip(&b).all(|(p, q)| *p == "*" || p == q)
 }
 
 /// Numbers compared by value (BSON has no unsigned 64-bit type, floats keep their value).
@@ -481,12 +519,21 @@ fn judge(format: &str, want: &Option<Value>, lib_err: Option<String>, r: &Run) -
                         Err(e) => Some(("not-well-formed:xml".into(), format!("{e}: {:?}", clip(&out, 300)))),
                         Ok(mut leaves) => {
                             let mut wl = Vec::new();
-                            json_leaves(w, &mut wl);
-                            leaves.sort();
-                            wl.sort();
-                            if leaves == wl { None } else {
-                                let missing: Vec<&String> = wl.iter().filter(|x| !leaves.contains(x)).take(3).collect();
-                                Some(("not-faithful:xml".into(), format!("leaf values differ from the library's; e.g. missing {missing:?} ({} vs {} leaves)", leaves.len(), wl.len())))
+                            json_leaves(w, "data", &mut wl);
+                            let (n_xml, n_want) = (leaves.len(), wl.len());
+                            // every expected (path, value) must be matched by a distinct XML leaf: exact paths first, wildcards last
+                            wl.sort_by_key(|(p, _)| p.contains('*'));
+                            let mut missing: Vec<(String, String)> = Vec::new();
+                            for (p, val) in wl {
+                                match leaves.iter().position(|(q, x)| *x == val && path_matches(&p, q)) {
+                                    Some(k) => {
+                                        leaves.swap_remove(k);
+                                    }
+                                    None => missing.push((p, val)),
+                                }
+                            }
+                            if missing.is_empty() && leaves.is_empty() { None } else {
+                                Some(("not-faithful:xml".into(), format!("elements differ from the library's value: missing {:?}, unexpected {:?} ({n_xml} vs {n_want} leaves)", &missing[.. missing.len().min(3)], &leaves[.. leaves.len().min(3)])))
                             }
                         }
                     }
